@@ -18,6 +18,7 @@ lib/plot/timeseries.go (`timeSeries.add`, `timeSeries.iter`).
 -/
 import Vegeta.Go.Proto
 import Vegeta.Model.LTTB
+import Vegeta.Model.RoundRobin
 namespace Vegeta.Model.Plot
 open Vegeta.Go Vegeta.Model.LTTB
 
@@ -272,5 +273,34 @@ def Plot.data (store : Store) (p : Plot) (threshold : Int) : Outcome (List (List
   | .ok rows => .ok (sortBy rowLt rows, dataLabels ss)
   | .error e => .error e
   | .panic => .panic
+
+/-! ### the `plot` command (plot.go `plotRun`) -/
+
+def eDecode : Nat := 3     -- a decoder returned an error other than io.EOF
+def eNotDone : Nat := 4    -- (model only) the decode loop did not finish within the fuel
+
+/-- `plotRun(files, threshold, title, output)`:
+
+    dec := decoder(files)                      -- round robin over the files' decoders (C13)
+    for { if err = dec.Decode(&r); err != nil { if err == io.EOF { break }; return err }
+          if err = p.Add(&r); err != nil { return err } }
+    p.Close(); p.WriteTo(out)                  -- WriteTo renders p.data()
+
+as a fold: the decoded records (`RoundRobin.drain`: call the combined decoder until its first
+error) are added one by one; the page's data block is `Plot.data` of the resulting plot.  Since
+nothing is written unless every step succeeds, adding while decoding and adding after decoding
+have the same outcome.  `Close` only finishes the store's streams (no effect on the model).
+The `os.Interrupt` branch of the loop (stop reading early) is not modelled. -/
+def plotCommand (store : Store) (threshold : Int) (fuel : Nat) (files : List (RoundRobin.Dec Result)) :
+    Outcome (List (List F64) × List Bytes) :=
+  match RoundRobin.drain fuel (RoundRobin.RR.init files) with
+  | (out, _, some e) =>
+    if e = RoundRobin.eEOF then
+      match Plot.addAll [] (out.map (·.2)) with
+      | .ok p => Plot.data store p threshold
+      | .error e => .error e
+      | .panic => .panic
+    else .error eDecode
+  | (_, _, none) => .error eNotDone
 
 end Vegeta.Model.Plot
